@@ -17,7 +17,7 @@ pub fn generate(seed: u64, tier: &str, out: &mut dyn std::io::Write) {
     let rtsig = libc::SIGRTMIN() + 1;
     for i in 0..n {
         let mut r = Rng::for_case(seed, 3, i);
-        let scen = *r.pick(&["ok", "destfail", "destfail", "destpanic", "badapp", "nostop", "ok-signals", "ok-signals", "destfail-signals", "stoptimeout", "stoptimeout-signals", "nostop-storm", "nostop-storm", "zombie", "zombie-signals"]);
+        let scen = *r.pick(&["ok", "destfail", "destfail", "destpanic", "badapp", "nostop", "ok-signals", "ok-signals", "destfail-signals", "stoptimeout", "stoptimeout-signals", "nostop-storm", "nostop-storm", "zombie", "zombie-signals", "slow-signals", "slow-signals"]);
         let mut nblock = r.range(0, 5) as usize;
         let zombie = scen.starts_with("zombie");
         if zombie {
@@ -31,6 +31,13 @@ pub fn generate(seed: u64, tier: &str, out: &mut dyn std::io::Write) {
         // after the signal was sent) and cannot be attached to; the process lives on in its other threads
         if zombie {
             args.push("-Z".into());
+        }
+        // a thread that cannot act on signals for a while (parent of a vfork child): signals sent to it stay pending
+        // until after the dumper has attached, so each of them is reported to the dumper, which must pass it on
+        let slow = scen == "slow-signals";
+        if slow {
+            args.push("-V".into());
+            args.push((*r.pick(&[10u64, 25])).to_string());
         }
         let mut helper_idx: Option<usize> = None;
         if nblock >= 1 && r.chance(1, 3) {
@@ -61,22 +68,70 @@ pub fn generate(seed: u64, tier: &str, out: &mut dyn std::io::Write) {
         }
         // signals placed at hook points
         let sent: Arc<Mutex<Vec<(i32, u32)>>> = Arc::new(Mutex::new(t.threads.iter().map(|x| (x.tid, 0u32)).collect()));
-        let with_signals = scen.ends_with("signals") || scen == "nostop";
+        let with_signals = (scen.ends_with("signals") || scen == "nostop") && !slow;
+        if slow {
+            let sent = sent.clone();
+            let pid = t.pid;
+            let slow_tid = t.threads.iter().find(|x| x.slow).map(|x| x.tid).unwrap_or(0);
+            let mut r2 = Rng::for_case(seed, 304, i);
+            let ordinary = [libc::SIGUSR1, libc::SIGUSR2, libc::SIGTRAP, libc::SIGWINCH, libc::SIGURG, libc::SIGALRM, libc::SIGVTALRM,
+                libc::SIGPROF, libc::SIGIO, libc::SIGHUP, libc::SIGINT, libc::SIGQUIT, libc::SIGTERM, libc::SIGPIPE];
+            let mut sigs: Vec<i32> = ordinary.iter().copied().filter(|_| r2.chance(1, 3)).collect();
+            for _ in 0..r2.below(3) {
+                sigs.push(rtsig);
+            }
+            if sigs.is_empty() {
+                sigs.push(libc::SIGTRAP);
+            }
+            let point = *r2.pick(&["dump_start", "threads_enumerated"]);
+            let fired = Arc::new(std::sync::atomic::AtomicBool::new(false));
+            set_sync(Some(Box::new(move |p, _tid| {
+                if p == point && slow_tid != 0 && !fired.swap(true, std::sync::atomic::Ordering::SeqCst) {
+                    for sig in &sigs {
+                        if tgkill(pid, slow_tid, *sig) {
+                            let mut s = sent.lock().unwrap();
+                            if let Some(e) = s.iter_mut().find(|e| e.0 == slow_tid) {
+                                e.1 += 1;
+                            }
+                        }
+                    }
+                }
+            })));
+        }
         if with_signals {
             let sent = sent.clone();
             let pid = t.pid;
             let tids: Vec<i32> = t.threads.iter().filter(|x| !x.spin && Some(x.idx) != helper_idx && !(zombie && x.idx == 0)).map(|x| x.tid).collect();
-            let plan: Vec<(String, i32, u32)> = (0..(if tids.is_empty() { 0 } else { r.range(1, 6) }))
+            let mut plan: Vec<(String, i32, u32, i32)> = (0..(if tids.is_empty() { 0 } else { r.range(1, 6) }))
                 .map(|_| {
                     let point = (*r.pick(&["dump_start", "threads_enumerated", "before_attach", "threads_suspended", "before_resume", "after_resume"])).to_string();
-                    (point, *r.pick(&tids), r.range(1, 3) as u32)
+                    (point, *r.pick(&tids), r.range(1, 3) as u32, rtsig)
                 })
                 .collect();
+            // ordinary signals as well (each at most once per thread: they do not queue), from a side stream
+            {
+                let mut r2 = Rng::for_case(seed, 303, i);
+                let ordinary = [libc::SIGUSR1, libc::SIGUSR2, libc::SIGTRAP, libc::SIGWINCH, libc::SIGURG, libc::SIGALRM, libc::SIGVTALRM,
+                    libc::SIGPROF, libc::SIGIO, libc::SIGHUP, libc::SIGINT, libc::SIGQUIT, libc::SIGTERM, libc::SIGPIPE, libc::SIGRTMIN() + 2];
+                let mut used: Vec<(i32, i32)> = Vec::new();
+                if !tids.is_empty() {
+                    for _ in 0..r2.below(5) {
+                        let tid = *r2.pick(&tids);
+                        let sig = *r2.pick(&ordinary);
+                        if used.contains(&(tid, sig)) {
+                            continue;
+                        }
+                        used.push((tid, sig));
+                        let point = (*r2.pick(&["dump_start", "threads_enumerated", "before_attach", "threads_suspended", "before_resume"])).to_string();
+                        plan.push((point, tid, 1, sig));
+                    }
+                }
+            }
             set_sync(Some(Box::new(move |p, tid| {
-                for (point, target, k) in &plan {
+                for (point, target, k, sig) in &plan {
                     if point == p && (p != "before_attach" || *target == tid) {
                         for _ in 0..*k {
-                            if tgkill(pid, *target, rtsig) {
+                            if tgkill(pid, *target, *sig) {
                                 let mut s = sent.lock().unwrap();
                                 if let Some(e) = s.iter_mut().find(|e| e.0 == *target) {
                                     e.1 += 1;
@@ -88,7 +143,9 @@ pub fn generate(seed: u64, tier: &str, out: &mut dyn std::io::Write) {
             })));
         }
         let mut fail_client = None;
-        if scen == "nostop" || scen == "nostop-storm" {
+        // (for the slow thread: without the process-wide stop it is attached to while it still waits, so what is
+        // pending for it is reported to the dumper before the attach's own SIGSTOP)
+        if scen == "nostop" || scen == "nostop-storm" || slow {
             let mut fc = FailSpotName::testing_client();
             fc.set_enabled(FailSpotName::StopProcess, true);
             fail_client = Some(fc);
